@@ -33,9 +33,11 @@ type graph struct {
 // starting with the root node.
 func (g *graph) process(ctx context.Context, e *Event) (Status, error) {
 	statusChan := make(chan Status)
+	verifPoint(ctx, "process.start", "")
 	var wg sync.WaitGroup
 	go func() {
 		g.roots.Range(func(_ PipelineID, pipeline *registeredPipeline) bool {
+			verifPoint(ctx, "range.root", pipeline.rootNode.nodeID)
 			select {
 			// Don't continue to start root nodes if our context is already done.
 			// We would just process the node and then drop the status, and no
@@ -46,19 +48,25 @@ func (g *graph) process(ctx context.Context, e *Event) (Status, error) {
 			}
 
 			wg.Add(1)
+			verifPoint(ctx, "range.started", pipeline.rootNode.nodeID)
 			g.doProcess(ctx, pipeline.rootNode, e, statusChan, &wg)
 			return true
 		})
+		verifPoint(ctx, "range.wait", "")
 		wg.Wait()
+		verifPoint(ctx, "range.close", "")
 		close(statusChan)
 	}()
 	var status Status
 	var done bool
 	for !done {
+		verifPoint(ctx, "collector.select", "")
 		select {
 		case <-ctx.Done():
+			verifPoint(ctx, "collector.ctxdone", "")
 			done = true
 		case s, ok := <-statusChan:
+			verifPoint(ctx, "collector.recv", "")
 			if ok {
 				status.Warnings = append(status.Warnings, s.Warnings...)
 				status.complete = append(status.complete, s.complete...)
@@ -68,6 +76,7 @@ func (g *graph) process(ctx context.Context, e *Event) (Status, error) {
 			}
 		}
 	}
+	verifPoint(ctx, "process.return", "")
 	return status, status.getError(ctx.Err(), g.successThreshold, g.successThresholdSinks)
 }
 
@@ -86,10 +95,14 @@ func (g *graph) doProcess(ctx context.Context, node *linkedNode, e *Event, statu
 
 	// Process the current Node
 	e, err := node.node.Process(ctx, e)
+	verifPoint(ctx, "node.returned", node.nodeID)
 	if err != nil {
+		verifPoint(ctx, "status.send.warning", node.nodeID)
 		select {
 		case <-ctx.Done():
+			verifPoint(ctx, "status.dropped", node.nodeID)
 		case statusChan <- Status{Warnings: []error{err}}:
+			verifPoint(ctx, "status.sent", node.nodeID)
 		}
 		return
 	}
@@ -101,9 +114,12 @@ func (g *graph) doProcess(ctx context.Context, node *linkedNode, e *Event, statu
 
 	// If the Event is nil, it has been filtered out and we are done.
 	if e == nil {
+		verifPoint(ctx, "status.send.filtered", node.nodeID)
 		select {
 		case <-ctx.Done():
+			verifPoint(ctx, "status.dropped", node.nodeID)
 		case statusChan <- completeStatus:
+			verifPoint(ctx, "status.sent", node.nodeID)
 		}
 		return
 	}
@@ -118,12 +134,16 @@ func (g *graph) doProcess(ctx context.Context, node *linkedNode, e *Event, statu
 
 		for _, child := range node.next {
 			wg.Add(1)
+			verifPoint(ctx, "child.spawn", child.nodeID)
 			go g.doProcess(ctx, child, e, statusChan, wg)
 		}
 	} else {
+		verifPoint(ctx, "status.send.leaf", node.nodeID)
 		select {
 		case <-ctx.Done():
+			verifPoint(ctx, "status.dropped", node.nodeID)
 		case statusChan <- completeStatus:
+			verifPoint(ctx, "status.sent", node.nodeID)
 		}
 	}
 }
